@@ -99,7 +99,11 @@ func (b *assignmentBuilder) structToStruct(lhsStruct, rhsStruct bmodel.Node, add
 
 		var a gmodel.Assignment
 		a, err = b.matchStructFieldAndStruct(lhsField, rhsStruct, additionalArgs)
-		if err == nil && a != nil {
+		if err != nil {
+			// Stop here, or the next field would overwrite the error.
+			return true
+		}
+		if a != nil {
 			assignments = append(assignments, a)
 		}
 		return
